@@ -864,13 +864,15 @@ func (e *Enc) recInfo(sf *SpecFunc) *recInfo {
 		e.note("recursive spec function " + mem.Name + " (fuel-bounded unfolding axioms)")
 	}
 	for i, em := range emits {
+		// fuel is irrelevant to the value (also for an opaque function whose definition is hidden here)
+		e.axioms = append(e.axioms,
+			fmt.Sprintf("(assert (forall (%s) (! (= %s (%s fuel %s)) :pattern (%s))))", em.allB, em.lhs, em.fname, em.rest, em.lhs))
 		if members[i].Opaque && !members[i].Rec && !e.revealed[members[i].Name] {
 			e.note("opaque spec function " + members[i].Name + " (definition not used here)")
 			continue
 		}
 		e.axioms = append(e.axioms,
-			fmt.Sprintf("(assert (forall (%s) (! (= %s %s) :pattern (%s))))", em.allB, em.lhs, em.body, em.lhs),
-			fmt.Sprintf("(assert (forall (%s) (! (= %s (%s fuel %s)) :pattern (%s))))", em.allB, em.lhs, em.fname, em.rest, em.lhs))
+			fmt.Sprintf("(assert (forall (%s) (! (= %s %s) :pattern (%s))))", em.allB, em.lhs, em.body, em.lhs))
 	}
 	return m[sf.Pkg+"."+sf.Name]
 }
@@ -1049,6 +1051,24 @@ func (env *Env) trCall(x *ECall) TV {
 		e.declBytesStr()
 		h := env.heap(e.elemHeap(sl.Elem()))
 		return TV{app("bytes_str", app("select", h, app("s_arr", b.T)), app("idx", app("s_off", b.T), lo), app("-", hi, lo)), tyString}
+	case "sub":
+		// sub(s, lo, hi): the slice s[lo:hi] (same backing array)
+		argN(3)
+		b := env.tr(x.Args[0])
+		if _, ok := b.Ty.Underlying().(*types.Slice); !ok {
+			specFail("sub of non-slice")
+		}
+		lo, hi := env.tr(x.Args[1]).T, env.tr(x.Args[2]).T
+		t := app("mk_slice", app("s_arr", b.T), app("+", app("s_off", b.T), lo), app("-", hi, lo), app("-", app("s_cap", b.T), lo))
+		if bt, ok := env.lookupBacking(b.T); ok {
+			// inside a recursive spec function: the sub-slice shares the parameter's backing array
+			if env.backing == nil {
+				env.backing = map[Term]Term{}
+				env.backingDeref = map[Term]string{}
+			}
+			env.backing[t] = bt
+		}
+		return TV{t, b.Ty}
 	case "trunc":
 		argN(1)
 		e.decl("fn:f2i", "(declare-fun f2i (F64) Int)")
